@@ -808,8 +808,15 @@ func (e *Env) localDef(d *LocalDef, args []ast.Expr) Val {
 		if body.Const != nil {
 			body = c.materialise(body, rt)
 		}
-		app := fmt.Sprintf("(%s %s)", sym, strings.Join(names, " "))
-		c.emit("(assert (forall (%s) (! (= %s %s) :pattern (%s))))", strings.Join(binds, " "), app, body.T.S, app)
+		if len(d.Params) == 0 {
+			c.emit("(assert (= %s %s))", sym, body.T.S)
+		} else {
+			app := fmt.Sprintf("(%s %s)", sym, strings.Join(names, " "))
+			c.emit("(assert (forall (%s) (! (= %s %s) :pattern (%s))))", strings.Join(binds, " "), app, body.T.S, app)
+		}
+	}
+	if len(d.Params) == 0 {
+		return Val{T: Term{sym, c.sortOf(rt)}, Ty: rt}
 	}
 	strs := make([]string, len(args))
 	for i, a := range args {
